@@ -27,7 +27,7 @@ func (c09) Describe() engine.Info {
 	return engine.Info{
 		Rule: "scenario = cartridge configuration (as C08) + history of 30..300 operations biased to RAM: enable (xA) / disable (other values) writes, bank and mode selects incl. out-of-range bank numbers, writes and reads over the whole A000-BFFF window (edges, MBC2 mirrors, random). After every operation 4 window addresses are read back; at the end Mapper.DumpRAM is compared. " +
 			"Oracle: reference RAM model (gate on low nibble A, FF when disabled, writes ignored when disabled, independent banks modulo the bank count, one 8 KiB bank when the header declares none, MBC2 512 half-bytes mirrored with the upper nibble reading 1, ROM-only window FF). Signature as C08." +
-			" DMA transfers from cartridge space run while the history goes on; window writes made while an MBC3 clock register or an unmapped select is selected are performed and must leave RAM untouched; every declared RAM size code 0-5 for MBC1 and MBC3. Environment: CPU parked looping, halted or stopped. Configurations use every header type byte of a controller family (battery, rumble, timer variants), MBC3 images up to 8 MiB, one image in four repeats logo and header in every page, and one history in four looks at the windows only every 3rd..12th operation.",
+			" DMA transfers from cartridge space run while the history goes on; window writes made while an MBC3 clock register or an unmapped select is selected are performed and must leave RAM untouched; every declared RAM size code 0-5 for MBC1 and MBC3. Environment: CPU parked looping, halted or stopped. Configurations use every header type byte of a controller family (battery, rumble, timer variants), MBC3 images up to 8 MiB, one image in four repeats logo and header in every page, and one history in four looks at the windows only every 3rd..12th operation. One image in five carries distinct pages with equal CRC-32 and equal byte sums (differing in the signature bytes the checks read).",
 		Assumptions:    []string{"MBC3 accesses with a clock register selected belong to C10 and are skipped here", "the low nibble of an MBC2 cell that was never written is not specified"},
 		RequiredProbes: []string{"ram_write_enabled", "ram_write_disabled", "ram_bank_nonzero", "dump_compared", "dma_from_cartridge_space_in_flight", "window_write_while_clock_register_selected", "dump_compared_mid_history"},
 		RealComponents: realComponents, StubComponents: stubComponents,
